@@ -245,7 +245,7 @@ enum Via {
 //     the length is n0 + number of pushes.
 // ---------------------------------------------------------------------------
 
-const SHARED_MUT_SRC: &str = "fn pu(a: List[u64], x: u64) {\n    a.push(x);\n}\n\nfn sw(a: List[u64], i: u64, j: u64) {\n    a.swap(i, j);\n}\n\nfn eq(a: List[u64], b: List[u64]) -> bool {\n    a == b\n}\n\nfn gt(a: List[u64], i: u64) -> u64 {\n    match a.get(i) {\n        Some(x) => x,\n        None => 0,\n    }\n}\n\nfn has(a: List[u64], x: u64) -> bool {\n    a.contains(x)\n}\n\nfn cc(a: List[u64], b: List[u64]) -> u64 {\n    a.concat(b).len()\n}\n";
+const SHARED_MUT_SRC: &str = "fn pu(a: List[u64], x: u64) {\n    a.push(x);\n}\n\nfn sw(a: List[u64], i: u64, j: u64) {\n    a.swap(i, j);\n}\n\nfn eq(a: List[u64], b: List[u64]) -> bool {\n    a == b\n}\n\nfn gt(a: List[u64], i: u64) -> u64 {\n    match a.get(i) {\n        Some(x) => x,\n        None => 0,\n    }\n}\n\nfn has(a: List[u64], x: u64) -> bool {\n    a.contains(x)\n}\n\nfn cc(a: List[u64], b: List[u64]) -> u64 {\n    a.concat(b).len()\n}\n\nfn sn(a: List[u64], n: u64) -> u64 {\n    perm_defect(a, n)\n}\n";
 
 impl Concurrent {
     fn shared_lists_mutating(&mut self, rng: &mut Rng, args: &Args) -> CaseOut {
@@ -271,7 +271,8 @@ impl Concurrent {
         let gt = pkg.get_function::<fn(L, u64) -> u64>("gt").ok();
         let has = pkg.get_function::<fn(L, u64) -> bool>("has").ok();
         let cc = pkg.get_function::<fn(L, L) -> u64>("cc").ok();
-        let (Some(pu), Some(sw), Some(eq), Some(gt), Some(has), Some(cc)) = (pu, sw, eq, gt, has, cc) else {
+        let sn = pkg.get_function::<fn(L, u64) -> u64>("sn").ok();
+        let (Some(pu), Some(sw), Some(eq), Some(gt), Some(has), Some(cc), Some(sn)) = (pu, sw, eq, gt, has, cc, sn) else {
             out.skipped = Some("shared-lists-mutating:no-function".into());
             return out;
         };
@@ -287,7 +288,9 @@ impl Concurrent {
         out.tags.push(format!("threads:{n_threads}"));
         let rounds: usize = if args.thorough() { 6000 } else { 2000 };
         // what each thread mostly does
-        let mix = *rng.pick(&["mixed", "push-vs-eq", "swap-vs-swap", "push-vs-get"]);
+        // (swap-vs-snapshot: nobody pushes, so every snapshot the host takes with to_vec must be a
+        // permutation of the initial values)
+        let mix = *rng.pick(&["mixed", "push-vs-eq", "swap-vs-swap", "push-vs-get", "swap-vs-snapshot"]);
         out.tags.push(format!("shared-lists-mutating:mix:{mix}"));
         if with_delays {
             roto::verif::set_list_hook(Some(delay_hook));
@@ -302,7 +305,7 @@ impl Concurrent {
         for t in 0..n_threads {
             let progress = progress.clone();
             let any_push = any_push.clone();
-            let (pu, sw, eq, gt, has, cc) = (pu.clone(), sw.clone(), eq.clone(), gt.clone(), has.clone(), cc.clone());
+            let (pu, sw, eq, gt, has, cc, sn) = (pu.clone(), sw.clone(), eq.clone(), gt.clone(), has.clone(), cc.clone(), sn.clone());
             let (a, b) = (a.clone(), b.clone());
             let tx = tx.clone();
             let start = start.clone();
@@ -320,6 +323,7 @@ impl Concurrent {
                         "push-vs-eq" => if t == 0 { 0 } else { 2 },
                         "swap-vs-swap" => 1,
                         "push-vs-get" => if t % 2 == 0 { 0 } else { 3 },
+                        "swap-vs-snapshot" => if t % 2 == 0 { 1 } else { 6 },
                         _ => r.usize(6),
                     };
                     let first = if mix == "push-vs-eq" && op == 0 { round % 2 == 0 } else { r.bool() };
@@ -352,6 +356,13 @@ impl Concurrent {
                             }
                             if i < n0 && v == 0 {
                                 let _ = tx.send(Err(format!("thread {t} round {round}: get({i}) found nothing below the initial length {n0}")));
+                                return;
+                            }
+                        }
+                        6 => {
+                            let d = sn.call(x.clone(), n0);
+                            if d != 0 {
+                                let _ = tx.send(Err(format!("thread {t} round {round}: a snapshot taken with to_vec while other threads only swap is not a permutation of the initial values (defect {d})")));
                                 return;
                             }
                         }
